@@ -679,6 +679,19 @@ func CheckTree(prop string, c *TreeCase, st *Stats) *Violation {
 	return nil
 }
 
+func cloneNode(n *Node) *Node {
+	if n == nil {
+		return nil
+	}
+	c := *n
+	c.Kids = nil
+	for _, k := range n.Kids {
+		c.Kids = append(c.Kids, cloneNode(k))
+	}
+	c.Group = append([]int(nil), n.Group...)
+	return &c
+}
+
 func subPolicies(c *TreeCase) string {
 	s := ""
 	for l, cmd := range c.PathCmds() {
@@ -796,7 +809,14 @@ func GenTreeCase(t *rapid.T, mode TreeGenMode) *TreeCase {
 		if cmd.Implicit {
 			cmd.AST = implicitAST(d)
 		} else {
-			cmd.AST = &Node{Kind: KSeq, Kids: []*Node{{Kind: KOptional, Kids: []*Node{{Kind: KOpt, Opt: vo}}}, cmd.AST}}
+			// OPTIONS means ALL declared options: the groups of the (copied) spec that stand for it gain the new one
+			old := cloneNode(cmd.AST)
+			old.Walk(func(n *Node) {
+				if n.Kind == KGroup && n.AllOpts {
+					n.Group = append(append([]int{}, n.Group...), vo)
+				}
+			})
+			cmd.AST = &Node{Kind: KSeq, Kids: []*Node{{Kind: KOptional, Kids: []*Node{{Kind: KOpt, Opt: vo}}}, old}}
 			cmd.Spec = cmd.AST.Render(d)
 		}
 		c.Levels[l] = append([]string{names[intn(t, len(names), "vspell")]}, c.Levels[l]...)
